@@ -70,6 +70,11 @@ def run(c):
     sp = cpl.Sandpile(R, C, is_closed_boundary=bool(c["closed"]))
     for (i, j, t) in c["grains"]:
         sp.add_grain((i, j), t)
+    if (int(ca.sum()) + c["T"] + R) % 4 == 0 and min(R, C) >= 2:
+        # what the program did before on a grid of this shape (harness/prelude.py): another automaton with radius 2, the Moore
+        # neighbourhood, every memoize mode, an evolution aborted by its rule
+        from .. import prelude
+        prelude.run2d(dict(r=1, prelude=["other_r", "other_nb", "other_memo", "poison"]), ca.astype("int32"), False, "von Neumann")
     try:
         return cpl.evolve2d(ca, timesteps=c["T"], apply_rule=sp, r=1, neighbourhood="von Neumann"), None, sp
     except Exception as e:  # noqa
